@@ -8,6 +8,7 @@ Obligations: the re-read object equals the written one section by section (to
 the digits the field carries), the second write equals the first up to
 trailing blanks, and a third cycle reproduces the second exactly.
 """
+import os
 import itertools
 import z3
 from fractions import Fraction
@@ -372,6 +373,7 @@ def shapes(tier):
         generators=gens3, meshmaker='xyz', print_block='block2', nincon_vars=3)   # block2 = 'AB1 7', held as 'AB107'
     add('aut-whole', autough2=True, sections=ALL_AUT, nrock=2, nad=[1, 2], nblocks=3, nincons=2, ntimes=8, generators=gens3, nincon_vars=4)
     add('t2-param-timesteps9', sections=['PARAM'], ntimesteps=9, nincons=4)
+    add('t2-param-incons-with-gaps', sections=['PARAM'], nincons=6, incon_nones=[1, 3, 4])
     add('t2-meshfile', sections=['ROCKS', 'PARAM', 'ELEME', 'CONNE', 'GENER', 'INCON'], nblocks=3, meshfile=True, generators=[dict(ltab=4, enthalpy=False)])
     add('aut-xp-echo', autough2=True, xp=True, echo=True, sections=['SIMUL', 'ROCKS', 'PARAM', 'RPCAP', 'ELEME', 'CONNE', 'GENER'], nrock=1, nad=[2], nblocks=2,
         generators=[dict(ltab=2, enthalpy=True)])
@@ -406,6 +408,7 @@ def shapes(tier):
 def run(tier, seed, rep):
     _load()
     sh = shapes(tier)
+    if os.environ.get('C01_ONLY'): sh = [s for s in sh if os.environ['C01_ONLY'] in s['tag']]   # development aid
     tasks = [(task_shape, dict(shape=s, second=40 if tier == 'thorough' else 0, seed=seed)) for s in sh]
     rep.add_results(report.run_tasks(tasks))
     rep.bounds += ['%d shapes (see per_task): whole TOUGH2 / AUTOUGH2 models, mesh in file / in a MESH file, extra precision echoed / not echoed, meshmaker xyz / rz2d / minc, history requests with and without a grid%s' % (
